@@ -82,6 +82,35 @@ def fake(ctx, idu, ids, context, cred):
     ctx.expect(r.ok, "control: the real response is accepted")
 
 
+def same_treatment(ctx):
+    """requests and identifiers that could make the two paths diverge: a credential identifier that cannot be length-
+    prefixed (it never has to be), a request whose ephemeral share equals the registered client's static key, or the
+    setup's fake key's public half - with and without a record the server answers, and the answers have the same shape"""
+    ctx.nontrivial = True
+    L = ctx.L
+    f = honest_flow(ctx, b"pw", b"c" * 70000, None, None, None)
+    if not ctx.expect(f.ok, "a 70000-byte credential identifier registers and logs in"):
+        return
+    ctx.counting = True
+    cpk = f.file[:L.Npk]
+    fk = ctx.call("ke_pub", f.setup[L.Nh + L.Nsk:])
+    shares = [("the client's own fresh share", f.ke1[L.Noe + NN:]), ("the registered client's static key", cpk)]
+    if fk.ok:
+        shares.append(("the public half of the setup's fake key", fk.b(0)))
+    for what, share in shares:
+        ke1 = f.ke1[:L.Noe + NN] + share
+        for cred in (b"c" * 70000, b"d" * 70000, b"short"):
+            outs = []
+            for file in (f.file, None):
+                r = ctx.call("srv_login_start", ctx.tape(L.Nh + 64 + L.Nsk + 16), f.setup, file, ke1, cred, None, None, None)
+                ctx.expect(r.ok and len(r.b(1)) == L.cred_response,
+                           "login start answers a request carrying %s, %d-byte identifier, %s (%s)"
+                           % (what, len(cred), "record" if file else "no record", r.err))
+                outs.append(r)
+            if all(o.ok for o in outs):
+                ctx.expect(outs[0].b(1)[:L.Noe] == outs[1].b(1)[:L.Noe], "same evaluation with and without a record")
+
+
 def cases(tier, seed):
     out = []
     shapes = [(None, None, None, b"alice"), (b"u", b"s", b"ctx", b""), (None, b"server", b"", b"c" * 300)]
@@ -89,4 +118,5 @@ def cases(tier, seed):
         for k, (a, b, c, cred) in enumerate(shapes if tier == "thorough" else shapes[:2]):
             out.append(dict(cross=["login_finish", "srv_login_finish", "srv_reg_start"], cross_limit=60, script=fake, suite=s, seed=seed * 10000 + si * 10 + k, mode="pattern+err",
                             params=dict(idu=a, ids=b, context=c, cred=cred)))
+        out.append(dict(script=same_treatment, suite=s, seed=seed * 10000 + si * 10 + 7, mode="pattern+err", params={}))
     return out
